@@ -36,6 +36,14 @@ Proof.
 Qed.
 Print Assumptions C11_test_names_distinct.
 
+(* ... and naming never gives up: for every list of output files a name is found for each (the re-qualification loop
+   of test_name needs at most as many rounds as there are names already taken - decimal rendering is injective, so the
+   candidates are distinct and cannot all be taken) *)
+Theorem C11_test_names_total : forall idc basenames,
+  exists ns, test_names idc reserved_names 1 basenames = Some ns /\ length ns = length basenames.
+Proof. intros idc bs. apply test_names_total. discriminate. Qed.
+Print Assumptions C11_test_names_total.
+
 (* "that script passes when run straight afterwards": when the command behaves as it did, every generated
    check passes - for every set of derived ignore-substrings, every text and every file content *)
 Theorem C11_unchanged_passes : forall cs ce subs ref,
